@@ -164,7 +164,8 @@ class Collect:
                             sign_f = signs
                     sk = kd.of(syms[0].value, st)
                     symk = ",".join(sorted(sk)) if sk else "?"
-                    atomk = kd.of(syms[0].value.value, st) if isinstance(syms[0].value, ast.Attribute) else None
+                    sym_x = it.expand(syms[0].value, st)  # `symbol = atom.symbol` read through the local
+                    atomk = kd.of(sym_x.value, st) if isinstance(sym_x, ast.Attribute) else None
                     for steps, k in self._walk_chain(kind, chain[:-1]):
                         if atomk is not None and k.rstrip("!") not in atomk:
                             continue
